@@ -1,5 +1,6 @@
 import re
 import datetime as dt
+from copy import copy
 
 import sqlalchemy as sa
 from sqlalchemy.exc import SQLAlchemyError
@@ -502,6 +503,17 @@ class SqlalchemyRender:
         if node.having is not None:
             query = query.having(self.to_expression(node.having))
 
+        query = self.prepare_order_limit(query, node)
+
+        if node.mode is not None:
+            if node.mode == 'FOR UPDATE':
+                query = query.with_for_update()
+            else:
+                raise NotImplementedError(f'Select mode: {node.mode}')
+
+        return query
+
+    def prepare_order_limit(self, query, node):
         if node.order_by is not None:
             order_by = []
             for f in node.order_by:
@@ -524,17 +536,23 @@ class SqlalchemyRender:
         if node.offset is not None:
             query = query.offset(node.offset.value)
 
-        if node.mode is not None:
-            if node.mode == 'FOR UPDATE':
-                query = query.with_for_update()
-            else:
-                raise NotImplementedError(f'Select mode: {node.mode}')
-
         return query
 
     def prepare_union(self, from_table):
+        right = from_table.right
+        tail = None
+        if (
+            isinstance(right, ast.Select)
+            and (right.order_by is not None or right.limit is not None or right.offset is not None)
+        ):
+            # the parser attaches ORDER BY / LIMIT / OFFSET written after a set operation to its last select:
+            #  they apply to the combined result, not to that member
+            tail = right
+            right = copy(right)  # don't change the query of the caller
+            right.order_by, right.limit, right.offset = None, None, None
+
         step1 = self.prepare_select(from_table.left)
-        step2 = self.prepare_select(from_table.right)
+        step2 = self.prepare_select(right)
 
         if isinstance(from_table, ast.Except):
             func = sa.except_ if from_table.unique else sa.except_all
@@ -543,7 +561,10 @@ class SqlalchemyRender:
         else:
             func = sa.union if from_table.unique else sa.union_all
 
-        return func(step1, step2)
+        query = func(step1, step2)
+        if tail is not None:
+            query = self.prepare_order_limit(query, tail)
+        return query
 
     def prepare_create_table(self, ast_query):
         columns = []
